@@ -70,6 +70,13 @@ def cases(tier, seed):
     for H, W in itertools.product(range(1, R + 1), repeat=2):
         for kH, kW in itertools.product(range(1, H + 1), range(1, W + 1)):
             out.append({"key": f"restore/{H}x{W}/psf={kH}x{kW}", "grp": "restore", "H": H, "W": W, "kH": kH, "kW": kW})
+    # image sizes with a large prime factor (FFT length selection) and non-C memory layouts of the image arguments
+    for (H, W) in ((13, 4), (5, 17), (19, 3), (11, 9)):
+        out.append({"key": f"restore/{H}x{W}/psf=3x3/bigprime", "grp": "restore", "H": H, "W": W, "kH": 3, "kW": 3})
+        out.append({"key": f"restore/{H}x{W}/psf=2x3/bigprime", "grp": "restore", "H": H, "W": W, "kH": 2, "kW": 3})
+    for (H, W) in ((3, 4), (4, 3), (5, 5)):
+        for lay in ("F", "T", "view"):
+            out.append({"key": f"restore/{H}x{W}/psf=2x3/layout={lay}", "grp": "restore", "H": H, "W": W, "kH": 2, "kW": 3 if W >= 3 else W, "lay": lay})
     for r in range(3):
         out.append({"key": f"psfgen/gauss/r={r}", "grp": "gauss", "r": r})
     for L in range(1, 6):
@@ -165,6 +172,21 @@ def run_case(case, seed):
         if not ok2 or Ac.shape != (N, N) or not np.array_equal(Ac, A):
             fails.append(fail("csr_builder!=definition", f"kernel {nm}: {'raised ' + str(Ac) if not ok2 else 'max dev %.3e' % np.max(np.abs(Ac - A))}", builder="csr", **t2))
         B = fill.dyadic((H, W, 4), bits=3, lo=-16, hi=16)
+        lay = case.get("lay", "C")
+        if lay == "F":
+            B = np.asfortranarray(B)
+        elif lay == "T":
+            B = np.ascontiguousarray(B.transpose(1, 0, 2)).transpose(1, 0, 2)
+        elif lay == "view":
+            big = np.zeros((2 * H + 1, 2 * W + 1, 8))
+            big[1::2, 1::2, ::2] = B
+            B = big[1::2, 1::2, ::2]
+        if lay != "C":
+            ok, Yb = call(q.apply_blur_fft, B, psf)
+            evals += 1
+            expb = np.stack([conv(np.ascontiguousarray(B[..., c]), psf) for c in range(4)], axis=-1)
+            if not ok or np.max(np.abs(Yb - expb)) > 1e-11:
+                fails.append(fail("blur!=definition", f"kernel {nm}: image in memory layout {lay}", layout=lay, **t2))
         Hhat = np.fft.fft2(A[:, 0].reshape(H, W))
         lams = list(LAMS) + ([0.0] if np.min(np.abs(Hhat)) > 1e-3 else [])
         for lam in lams:
